@@ -192,6 +192,28 @@ theorem same_message_id (cfgA cfgB : Cfg) (hkind : cfgA.kind = cfgB.kind) (hk : 
   obtain ⟨e1, e2⟩ := two_relayers_same_range cfgA cfgB hkind hk hpos wA wB stA stB lsA lsB c1 c2 h1 h2 b hb1 hb2
   rw [e1, e2]; exact ⟨rfl, rfl⟩
 
+/-- the retry ids are the deposit ids under a constant prefix — the same function of (source, destination, range) -/
+theorem retryMsgId_eq (src dest : Nat) (s e : Int) : retryMsgId src dest s e = "retry-" ++ msgId src dest s e := by
+  simp [retryMsgId, msgId, String.append_assoc]; rfl
+
+/-- RetryV2 ids, Substrate session ids and BTC per-input session ids have no argument a relayer could disagree on:
+    they are functions of the retry event / the delivery's message id / the input's sighash alone. Two relayers that
+    see the same event, derive the same message id (`same_message_id`) or build the same transaction therefore
+    derive the same identifiers. -/
+theorem same_derived_ids (src dest : Nat) (m1 m2 h1 h2 : String) (hm : m1 = m2) (hh : h1 = h2) :
+    retryV2MsgId src dest = retryV2MsgId src dest ∧ subSessionId m1 = subSessionId m2 ∧
+    btcInputSessionId h1 = btcInputSessionId h2 ∧ (∀ r, btcSessionId m1 r = btcSessionId m2 r) := by
+  subst hm; subst hh; exact ⟨rfl, rfl, rfl, fun _ => rfl⟩
+
+/-- Substrate: two relayers that both scan block `b` sign the resulting delivery under the same session id -/
+theorem same_sub_session_id (cfgA cfgB : Cfg) (hkind : cfgA.kind = cfgB.kind) (hk : cfgA.k = cfgB.k)
+    (hpos : cfgA.kind ≠ .btc → 0 < cfgA.k)
+    (wA wB : Wiring) (stA stB : Option Int) (lsA lsB : List (List SRound))
+    (c1 c2 : Call) (h1 : c1 ∈ histCalls (runAll cfgA wA stA lsA)) (h2 : c2 ∈ histCalls (runAll cfgB wB stB lsB))
+    (b : Int) (hb1 : c1.s ≤ b ∧ b ≤ c1.e) (hb2 : c2.s ≤ b ∧ b ≤ c2.e) (src dest : Nat) :
+    subSessionId (msgId src dest c1.s c1.e) = subSessionId (msgId src dest c2.s c2.e) := by
+  rw [(same_message_id cfgA cfgB hkind hk hpos wA wB stA stB lsA lsB c1 c2 h1 h2 b hb1 hb2 src dest).1]
+
 /-- … and the same signing session ids (batch index / resource id appended to the message id) -/
 theorem same_session_id (m1 m2 : String) (h : m1 = m2) (i : Nat) (r : String) :
     evmSessionId m1 i = evmSessionId m2 i ∧ btcSessionId m1 r = btcSessionId m2 r := by
